@@ -38,7 +38,11 @@ BoolAccepts(tokens) ==
 
 BoolGateEv ==
   /\ Step("BoolGate")
-  /\ Req("C10", Ev.verdict = IF BoolAccepts(Ev.fam.tokens) THEN "accepted" ELSE "refused")
+  \* typed target: accepted iff the return type is exactly bool.  A pointer from the unchecked macros
+  \* carries no type: it is never accepted for a function that does not return bool (whether a bool
+  \* function reached through it is accepted is not judged)
+  /\ Req("C10", Ev.form = "typed" => (Ev.verdict = IF BoolAccepts(Ev.fam.tokens) THEN "accepted" ELSE "refused"))
+  /\ Req("C10", (Ev.form = "unchecked" /\ ~Ev.fam.is_bool) => Ev.verdict = "refused")
   /\ Req("C10", Ev.verdict = "refused" => (Ev.cls = "bool-gate" /\ ~Ev.touched))
   /\ Req("C10", (Ev.verdict = "accepted" /\ Ev.fam.is_bool) => Ev.works = TRUE)
   /\ Req("C10", Ev.restored)
